@@ -86,8 +86,8 @@ PROPS = {
     "C03": dict(
         level="exploration",
         rule="inputs: (1) deterministic structured corruptions of valid seed messages drawn under every dictionary context - every length field (message, every AVP at every depth) set to each of {0,1,7,8,9,11,12,13,true-1,true+1,true+4,container,container+1,0xFFFFFF} (+19,20,21 for the message length), truncation at every offset, every flag bit of the header and of every AVP flipped, version byte, V flag with Length 8..11; (2) every dictionary type with payload lengths 0..17 and Address with 7 family classes x lengths 0..20; (3) nest bombs on a geometric depth grid; (4) random strings with plausible headers; (5) the 16 MiB extremes in their own child processes; thorough adds coverage-guided native fuzzing seeded with (1). Every input goes to ReadMessage, DecodeHeader, DecodeAVP, DecodeGrouped; every decoded message is rendered (String, PrettyDump), re-serialised, measured, unmarshalled into six struct shapes incl. the state machine's CER/CEA/DWR/DWA, searched and answered. Oracles: recover() around every call, child exit status with the current input logged before each call, TotalAlloc delta <= 64*len+1MiB per decoding call, goroutine stack capped at that bound with debug.SetMaxStack during decoding. distinct_nontrivial counts distinct corruption classes (kind, depth, value index / type, length).",
-        runs=dict(quick=[plain("TestC03", 8, 900, gomaxprocs=2), plain("TestC03Extremes", 5, 900, gomaxprocs=2), race("TestC03", 4, 900, gomaxprocs=2)],
-                  thorough=[plain("TestC03", 16, 3000, gomaxprocs=1), plain("TestC03Extremes", 5, 900, gomaxprocs=2), race("TestC03", 8, 3000, gomaxprocs=2),
+        runs=dict(quick=[plain("TestC03", 8, 900, gomaxprocs=2), plain("TestC03Extremes", 5, 300, gomaxprocs=2), race("TestC03", 4, 900, gomaxprocs=2)],
+                  thorough=[plain("TestC03", 16, 3000, gomaxprocs=1), plain("TestC03Extremes", 5, 300, gomaxprocs=2), race("TestC03", 8, 3000, gomaxprocs=2),
                             dict(build="fuzz", test="FuzzC03", iters=3000000, workers=12, timeout=3000)]),
         floor=dict(quick=15000, thorough=500000),
         need_events=["readmessage_calls", "readmessage_ok", "messages_inspected"],
